@@ -877,7 +877,26 @@ def replay_c18(d, case):
         sys.argv = old
 
 
-HANDLERS = {'c18': replay_c18, 'c11': replay_c11, 'c07': replay_c07, 'c10': replay_c10, 'c08': replay_c08, 'c02': replay_c02, 'c01': replay_c01, 'c15_list': replay_c15_list, 'tool': replay_tool, 'c20': replay_c20}
+def replay_c19(d, case):
+    from amr_kitchen import PlotfileCooker
+    pck = PlotfileCooker(os.path.join(d, 'plt'))
+    fsel = eval(case['fsel'])
+    try:
+        got = pck[fsel](*case['point'])
+    except Exception as e:
+        if case['expected'] is None:
+            return False, 'refused as required'
+        return True, 'raised %s: %s' % (type(e).__name__, e)
+    if case['expected'] is None:
+        return True, 'a point outside the domain was answered with %r' % (got,)
+    got = np.asarray(got, dtype=float).reshape(-1)
+    exp = np.asarray(case['expected'], dtype=float)
+    if got.shape != exp.shape or not np.allclose(got, exp, rtol=1e-9, atol=1e-12):
+        return True, 'returned %s, the stored cell values are %s' % (got.tolist(), exp.tolist())
+    return False, 'stored values returned'
+
+
+HANDLERS = {'c19': replay_c19, 'c18': replay_c18, 'c11': replay_c11, 'c07': replay_c07, 'c10': replay_c10, 'c08': replay_c08, 'c02': replay_c02, 'c01': replay_c01, 'c15_list': replay_c15_list, 'tool': replay_tool, 'c20': replay_c20}
 
 
 def register(name):
